@@ -133,12 +133,22 @@ def generate(seed, tier):
         N = L + rw.randrange(K // 4, K)
     starts = _gen_starts(rw, N, L, K) if not huge_k else [rw.randrange(0, N - L + 1) for _ in range(K)]
     data = SC.gen_data_spec(rw, N, 2 if mode == "csd" else 1)
+    stress = big and not huge_k and rw.random() < 0.3
+    if stress:
+        # precision stress: long segments, a constant offset 1e5 ... 1e8 times the fluctuation, the lowest bins
+        L = rw.choice([512, 1024, 2048])
+        K = rw.choice([1, 2, 5])
+        N = L + rw.randrange(0, 500)
+        starts = _gen_starts(rw, N, L, K)
+        order = rw.choice([0, 0, 1, 2])
+        data = SC.gen_data_spec(rw, N, 2 if mode == "csd" else 1)
+        data.update({"recipe": "noise", "scale": rw.choice([1e-3, 1e-2, 1.0]), "offset": rw.choice([1e3, 1e5, -1e5])})
     via = rw.choice(["kernel", "analyzer"]) if not huge_k else "kernel"
     win = rw.choice(["hann", "ones", "bartlett", "signed", "ramp", "gated", "kaiser"] if via == "kernel" else ["hann", "ones", "bartlett", "signed", "ramp", "gated"])
     kinds = ["numpy", "real-numba"] if big else list(WORLD_KINDS)
     sc = {
         "mode": mode, "order": order, "L": L, "N": N, "starts": starts, "win": win, "psll": rw.choice([60, 120, 200]),
-        "omega": _gen_omega(rw, L), "data": data, "via": via, "fs": rw.choice([1.0, 2.0, 100.0]),
+        "omega": (2 * np.pi * rw.uniform(0.3, 3.0) / L) if stress else _gen_omega(rw, L), "data": data, "via": via, "fs": rw.choice([1.0, 2.0, 100.0]),
         "worlds": [W.gen_world(rf, k, K, heavy=True) for k in kinds],
     }
     if gpu_long:
